@@ -319,6 +319,96 @@ Fixpoint run (s : st) (h : list op) : option st :=
               end
   end.
 
+(* ------------------------------------------------------------------ shared Atom objects: views and adoption *)
+(* The Atom objects of a molecule can be listed by other containers as well:
+     - a Substructure view lists a subset of them (and reads its coordinate rows through the molecule);
+       bond operations are defined on it (it is a Connectivity with its own bond list);
+     - any container built from / handed the same Atom objects without copying (Promolecule([atoms]),
+       other.append_atom(a), other.add_atom(a, c)) ADOPTS them: their parent pointer is re-pointed.
+   Whether an atom belongs to a molecule is decided by the molecule's atom LIST; the parent pointer is
+   a back-reference that the list owner maintains and that nothing may be decided from. *)
+Definition set_par (a : atom) (w : owner) : atom := mkAtom (a_id a) (a_el a) (a_lab a) w.
+Definition own (a : atom) : atom := set_par a OThis.
+(* the same state with every parent pointer of an atom reset to "this molecule" *)
+Definition own_all (s : st) : st := set_atoms s (map own (atoms s)).
+
+(* Substructure(parent, va): _atoms = [parent.get_atom(a) for a in va]; _bonds = the parent's bonds with
+   both ends inside, in the parent's order.  None: a designator does not resolve (the constructor raises).
+   Only the Connectivity layer is used on a view, so rows and charges are left empty. *)
+Fixpoint pick_atoms (ats : list atom) (va : list positive) : option (list atom) :=
+  match va with
+  | [] => Some []
+  | x :: r => match find (id_is x) ats, pick_atoms ats r with
+              | Some a, Some l => Some (a :: l)
+              | _, _ => None
+              end
+  end.
+Definition sub_view (s : st) (va : list positive) : option st :=
+  match pick_atoms (atoms s) va with
+  | None => None
+  | Some l => Some (mkSt false l [] []
+                         (filter (fun b => (mem (b_a1 b) va && mem (b_a2 b) va)%bool) (bonds s))
+                         (next_a s) (next_b s))
+  end.
+
+(* the bond operations, as performed on a view (designators are resolved against the VIEW) *)
+Inductive vop :=
+| VConnect (s1 s2 : sel)
+| VAppendBond (x y : positive)
+| VAppendBonds (l : list (positive * positive))
+| VDelBond (x y : positive).
+
+Definition vstep (v : st) (o : vop) : res :=
+  match o with
+  | VConnect s1 s2 => conn_connect v s1 s2
+  | VAppendBond x y => conn_append_bond v x y
+  | VAppendBonds l => append_bonds v l
+  | VDelBond x y => conn_del_bond v x y
+  end.
+
+Inductive xop :=
+| Own (o : op)                                   (* an edit of the molecule itself *)
+| ViaSub (va : list positive) (o : vop)          (* mol.substructure(va).<bond operation> *)
+| Adopt (l : list positive) (w : owner).         (* another container adopts the listed atoms of the molecule:
+                                                    afterwards they report w (OOther: that container is alive,
+                                                    ONone: it is gone -- parent is a weak reference) *)
+
+Definition adopt (s : st) (l : list positive) (w : owner) : st :=
+  set_atoms s (map (fun a => if mem (a_id a) l then set_par a w else a) (atoms s)).
+
+(* What the MOLECULE is left with.  A bond operation through a Substructure touches the view's own bond
+   list only (an atom that is not in the view: the recorded finding again, Unspec). *)
+Definition xstep (s : st) (x : xop) : res :=
+  match x with
+  | Own o => step s o
+  | ViaSub va o => match sub_view s va with
+                   | None => Err s
+                   | Some v => match vstep v o with
+                               | Ok _ => Ok s
+                               | Err _ => Err s
+                               | r => r
+                               end
+                   end
+  | Adopt l w => if forallb (is_member s) l then Ok (adopt s l w) else Unspec
+  end.
+
+Fixpoint xrun (s : st) (h : list xop) : option st :=
+  match h with
+  | [] => Some s
+  | x :: r => match xstep s x with
+              | Ok s' | Err s' => xrun s' r
+              | _ => None
+              end
+  end.
+
+(* the atoms some container adopted during the history *)
+Fixpoint adopted (h : list xop) : list positive :=
+  match h with
+  | [] => []
+  | Adopt l _ :: r => l ++ adopted r
+  | _ :: r => adopted r
+  end.
+
 (* ------------------------------------------------------------------ initial states *)
 Definition empty (q : bool) : st := mkSt q [] [] [] [] 1%positive 1%positive.
 
@@ -384,7 +474,9 @@ Definition row_of (s : st) (x : positive) : option (Z * option charge) :=
 (* ------------------------------------------------------------------ observations (correspondence) *)
 (* What the harness reads through the public accessors after every step:
      atoms           : (name, parent) in list order
-     idx / gai       : a.idx and mol.get_atom_index(a) for every atom of the list (-1 if it raised)
+     idx / gai       : a.idx and mol.get_atom_index(a) for every atom of the list (-1 if it raised);
+                       a.idx asks the atom's PARENT, so it is read only for atoms that report this
+                       molecule as parent (-2 otherwise: the atom was adopted by another container)
      coords          : one token per row of mol.coords
      charges         : mol.atomic_charges (Molecule) / [] (Structure)
      bonds           : (name, a1, a2, parent) in list order                                         *)
@@ -404,7 +496,7 @@ Definition idx_of (s : st) (x : positive) : Z :=
 Definition obs_of (raised : bool) (s : st) : obs :=
   mkObs raised
         (map (fun a => (a_id a, a_par a)) (atoms s))
-        (map (fun a => idx_of s (a_id a)) (atoms s))
+        (map (fun a => if owner_eqb (a_par a) OThis then idx_of s (a_id a) else (-2)%Z) (atoms s))
         (map (fun a => match get_atom_index s (ByObj (a_id a)) with Some i => Z.of_nat i | None => (-1)%Z end) (atoms s))
         (coords s) (charges s)
         (map (fun b => (b_id b, (b_a1 b, b_a2 b), b_par b)) (bonds s)).
@@ -429,13 +521,13 @@ Definition obs_eqb (a b : obs) : bool :=
                            && owner_eqb (snd x) (snd y)) (o_bonds a) (o_bonds b))%bool.
 
 (* one correspondence case: the initial state as observed, then (operation, observation) pairs *)
-Definition case := (st * list (op * obs))%type.
+Definition case := (st * list (xop * obs))%type.
 
-Fixpoint run_check (s : st) (steps : list (op * obs)) : bool :=
+Fixpoint run_check (s : st) (steps : list (xop * obs)) : bool :=
   match steps with
   | [] => true
   | (o, ob) :: r =>
-      match step s o with
+      match xstep s o with
       | Ok s' => (obs_eqb (obs_of false s') ob && run_check s' r)%bool
       | Err s' => (obs_eqb (obs_of true s') ob && run_check s' r)%bool
       | _ => false
@@ -447,11 +539,11 @@ Fixpoint run_check (s : st) (steps : list (op * obs)) : bool :=
 Definition check_case (c : case) : bool := (inv_b (fst c) && run_check (fst c) (snd c))%bool.
 
 (* position of the first step the model does not reproduce (diagnostics only) *)
-Fixpoint first_bad (n : nat) (s : st) (steps : list (op * obs)) : option nat :=
+Fixpoint first_bad (n : nat) (s : st) (steps : list (xop * obs)) : option nat :=
   match steps with
   | [] => None
   | (o, ob) :: r =>
-      match step s o with
+      match xstep s o with
       | Ok s' => if obs_eqb (obs_of false s') ob then first_bad (S n) s' r else Some n
       | Err s' => if obs_eqb (obs_of true s') ob then first_bad (S n) s' r else Some n
       | _ => Some n
